@@ -36,9 +36,12 @@ Count(S, tier) == Cardinality({ t \in S : TierOf(t) = tier })
 
 Meta == [outcomes |-> Outcomes, prelude |-> Prelude, values |-> Values, operators |-> Operators, excluded |-> Excluded,
          tuples_std |-> Count(Full, "std"), tuples_resource |-> Count(Full, "resource"), tuples_fatal |-> Count(Full, "fatal"),
-         operator_cases_std |-> [n \in 1..2 |-> Cardinality(OpsOfArity(n)) * Count(TupleSet(n), "std")]]
+         operator_cases_std |-> [n \in 1..2 |-> Cardinality(OpsOfArity(n)) *
+                                                  (Count(TupleSet(n), "std") + Cardinality({ t \in SweepTuples : Len(t) = n }))],
+         sweep_tuples |-> Cardinality(SweepTuples)]
 ASSUME PrintT(ToJson(Meta))
 ASSUME \A t \in Full : PrintT(ToJson([args |-> t, tier |-> TierOf(t), sample |-> FALSE]))
+ASSUME \A t \in SweepTuples : PrintT(ToJson([args |-> t, tier |-> "std", sample |-> FALSE, sweep |-> TRUE]))
 ASSUME \A t \in Sample : PrintT(ToJson([args |-> t, tier |-> TierOf(t), sample |-> TRUE]))
 ASSUME \A p \in Programs : PrintT(ToJson([program |-> p, tier |-> "std"]))
 ASSUME \A p \in FatalPrograms : PrintT(ToJson([program |-> p, tier |-> "fatal"]))
